@@ -23,6 +23,7 @@ registry! {
     c11 => "C11",
     c18 => "C18",
     c19 => "C19",
+    c20 => "C20",
     c21 => "C21",
     c22 => "C22",
     c23 => "C23",
@@ -32,7 +33,10 @@ registry! {
     c27 => "C27",
     c28 => "C28",
     c29 => "C29",
+    c30 => "C30",
+    c31 => "C31",
     c32 => "C32",
+    c33 => "C33",
     c35 => "C35",
     c36 => "C36",
 }
